@@ -1236,6 +1236,17 @@ func (r *runner) execOp(op *Op, tx *txCtx) {
 		r.db.GetProperty("leveldb.stats")
 		r.db.GetProperty("leveldb.sstables")
 		r.db.SizeOf([]util.Range{{}})
+		if op.HasS || op.HasL {
+			// bounds inside tables: the offsets are looked up in the tables
+			rg := util.Range{}
+			if op.HasS {
+				rg.Start = append([]byte{}, op.Start...)
+			}
+			if op.HasL {
+				rg.Limit = append([]byte{}, op.Limit...)
+			}
+			r.db.SizeOf([]util.Range{rg, {Start: rg.Start}, {Limit: rg.Limit}})
+		}
 		simrt.Progress()
 	}
 }
